@@ -8,6 +8,7 @@ _ENGINES = {
     "C08": ("sims.optsim", "OptSim"),
     "C11": ("sims.framesim", "FrameSim"),
     "C12": ("sims.modsim", "ModSim"),
+    "C13": ("sims.layersim", "LayerSim"),
 }
 
 
